@@ -99,12 +99,21 @@ def _set_domain(with_value):
 def _getitem_domain(tier):
     """plain, inherited, dotted, quoted and malformed keys on small parsed sets (the three routes of the lookup and every refusal)"""
     from nix_manipulator import parse
+    from nix_manipulator.expressions import Identifier
 
     texts = _SET_TEXTS + ["{ inherit (s) a b; }", "{ a = { b = { c = 1; }; x = 2; }; }", "let a = 1; in { inherit a; m = { inherit a; }; }",
                           "{ a.b = { c = 1; }; }", '{ a."b.c" = 1; }']
     for t in texts:
         for key in ["a", "b", "c", "zz", '"a"', "", "a.b", "a.b.c", "a.x", "a.b.c.d", "a.", ".a", 'a."b.c"', 'a."b', "a.${b}", "m.a"]:
             yield {"self": parse(t).expr, "key": key}
+            # the same lookup after the key was assigned through the mapping (a dotted key is then ONE binding called `a.b`):
+            # the first route must answer before the key is taken apart
+            s = parse(t).expr
+            try:
+                s[key] = Identifier(name="newvalue")
+            except Exception:
+                continue
+            yield {"self": s, "key": key}
 
 
 # ---------------------------------------------------------------------------------------------
